@@ -45,7 +45,7 @@ for pid, (eng, tech) in sorted(claimed.items()):
         'level_claimed': {'category': 'exploration',
                           'text': 'Seeded search over schedules and fault sequences of the real s3transfer code inside a deterministic simulator: every run is one exactly replayable execution; a clean batch is evidence, not proof.',
                           'design_ref': 'DESIGN.md section 6 (%s)' % pid},
-        'level_note': 'Trusted base: the simulator kernel (baton-passing threads, SimLock), the stubs (SimS3/SimFS/streams, modelled from botocore source) and the oracles in simv/. Pre-emption at synchronisation points (before an acquire, before and after a release), I/O, callback and stub points, plus statement-level pre-emption inside s3transfer code in a fraction of the runs; threads can be stalled and file-system calls slowed for a virtual duration. Checked against 226 independently seeded breaking changes (seeded/, 225 detected, see DESIGN section 12) and 20 behaviour-preserving refactorings (benign/).',
+        'level_note': 'Trusted base: the simulator kernel (baton-passing threads, SimLock), the stubs (SimS3/SimFS/streams, modelled from botocore source) and the oracles in simv/. Pre-emption at synchronisation points (before an acquire, before and after a release), I/O, callback and stub points, plus statement-level pre-emption inside s3transfer code in a fraction of the runs; threads can be stalled and file-system calls slowed for a virtual duration. Checked against 225 independently seeded breaking changes (seeded/, 224 detected, see DESIGN section 12) and 20 behaviour-preserving refactorings (benign/).',
         'technique': 'deterministic simulation with fault injection: ' + tech,
     })
 m = {
